@@ -27,6 +27,12 @@ func vfRunClasses(vf *vfCollector, ref *vfRefOut, mode string) {
 	if ref.JumpSkipEnd > 0 {
 		vf.Class("jump-skipping-END-node")
 	}
+	if ref.JumpToEndNode > 0 {
+		vf.Class("jump-to-aliased-END-node")
+		if ref.Result != "" {
+			vf.Class("jump-to-aliased-END-node-with-result")
+		}
+	}
 	if ref.JumpAdjacent > 0 {
 		vf.Class("jump-to-next-node")
 	}
@@ -61,20 +67,26 @@ func TestVerifC02Run(t *testing.T) {
 	defer vf.End()
 	vfRegisterKinds()
 	rapid.Check(t, func(rt *rapid.T) {
-		cfg := vfGenCfg{maxNodes: 7, allowNoFlow: true}
+		cfg := vfGenCfg{maxNodes: 7, allowNoFlow: true, endAliasJumps: true}
 		main := vfGenValidPipe(rt, "main", cfg, "m.")
 		var before, after *vfPipe
 		if vfRange(rt, 0, 9, "hasBefore") < 4 {
-			before = vfGenValidPipe(rt, "before", vfGenCfg{maxNodes: 4, allowNoFlow: true}, "b.")
+			before = vfGenValidPipe(rt, "before", vfGenCfg{maxNodes: 4, allowNoFlow: true, endAliasJumps: true}, "b.")
 		}
 		if vfRange(rt, 0, 9, "hasAfter") < 4 {
-			after = vfGenValidPipe(rt, "after", vfGenCfg{maxNodes: 4, allowNoFlow: true}, "a.")
+			after = vfGenValidPipe(rt, "after", vfGenCfg{maxNodes: 4, allowNoFlow: true, endAliasJumps: true}, "a.")
 		}
+		endAlias := map[string]bool{}
 		for _, p := range []*vfPipe{before, main, after} {
 			if p == nil {
 				continue
 			}
-			if rs, amb := vfInvalidReasons(p); len(rs)+len(amb) > 0 {
+			rs, amb := vfInvalidReasons(p)
+			if len(amb) == 1 && amb[0] == "target-is-END-node-alias" {
+				amb = nil // generated on purpose (endAliasJumps)
+				endAlias[p.Name] = true
+			}
+			if len(rs)+len(amb) > 0 {
 				rt.Fatalf("VF-INCONCLUSIVE generator bug: valid-by-construction pipeline is invalid for %v %v\n%s", rs, amb, p.YAML())
 			}
 		}
@@ -93,6 +105,11 @@ func TestVerifC02Run(t *testing.T) {
 			}
 			pl, rej, pan := vfNewPipeline(p.YAML())
 			if rej != nil {
+				if endAlias[p.Name] {
+					// open reading: a jump target that is the alias of an END node may be refused
+					vf.Class("ambiguous-END-node-alias-target-rejected")
+					return nil
+				}
 				vf.Violation(rt, "valid-spec-rejected", "a pipeline that satisfies every rule of the statement is rejected: %v\n%s", rej, p.YAML())
 				return nil
 			}
@@ -213,16 +230,17 @@ func TestVerifC02Run(t *testing.T) {
 	})
 	if !t.Failed() {
 		vfHealth(t, vf, map[string]float64{
-			"jump-skipping>=1-node":     0.05,
-			"jump-skipping-END-node":    0.01,
-			"filter-instance-ran-twice": 0.05,
-			"END-suppresses-later-flow": 0.05,
-			"non-default-namespace":     0.10,
-			"mode=GlobalFilter.Handle":  0.05,
-			"stop=result->END":          0.02,
-			"stop=unmapped-result":      0.05,
-			"stop=END-node":             0.03,
-			"stop=ran-off-the-end":      0.03,
+			"jump-skipping>=1-node":                0.05,
+			"jump-skipping-END-node":               0.01,
+			"jump-to-aliased-END-node-with-result": 0.01,
+			"filter-instance-ran-twice":            0.05,
+			"END-suppresses-later-flow":            0.05,
+			"non-default-namespace":                0.10,
+			"mode=GlobalFilter.Handle":             0.05,
+			"stop=result->END":                     0.02,
+			"stop=unmapped-result":                 0.05,
+			"stop=END-node":                        0.03,
+			"stop=ran-off-the-end":                 0.03,
 		})
 	}
 }
